@@ -252,6 +252,35 @@ func init() {
 					c.Violate("C20:optional-field:"+strings.TrimSpace(chk.prefix), fmt.Sprintf("line %q present=%v but field set=%v", chk.prefix, has(chk.prefix), chk.set), rep)
 				}
 			}
+			// the lines carry the values (independent formatting of each field)
+			line := func(prefix string) string {
+				for _, l := range strings.Split(body, "\r\n") {
+					if strings.HasPrefix(l, prefix) {
+						return strings.TrimPrefix(l, prefix)
+					}
+				}
+				return ""
+			}
+			if mask&16 != 0 {
+				suffix := "T"
+				if mask&1 == 1 {
+					suffix = "M"
+				}
+				if want := fmt.Sprintf("%03d%s", cdeg%360, suffix); line("COURSE: ") != want {
+					c.Violate("C20:course-line", fmt.Sprintf("COURSE line is %q, want %q", line("COURSE: "), want), rep)
+				}
+			}
+			if mask&6 == 6 {
+				if line("LATITUDE: ") != catalog.VerifDecToMinDec(lat, true) || line("LONGITUDE: ") != catalog.VerifDecToMinDec(lon, false) {
+					c.Violate("C20:position-line", fmt.Sprintf("LATITUDE/LONGITUDE lines are %q / %q, the formatted position is %q / %q", line("LATITUDE: "), line("LONGITUDE: "), catalog.VerifDecToMinDec(lat, true), catalog.VerifDecToMinDec(lon, false)), rep)
+				}
+			}
+			if mask&1 != 0 && line("COMMENT: ") != p.Comment {
+				c.Violate("C20:comment-line", fmt.Sprintf("COMMENT line is %q, want %q", line("COMMENT: "), p.Comment), rep)
+			}
+			if n := strings.Count(body, "LATITUDE: ") + strings.Count(body, "DATE: "); n > 2 {
+				c.Violate("C20:duplicate-lines", "a field line occurs more than once in the report", rep)
+			}
 			if msg.Type() != fbb.PositionReport {
 				c.Violate("C20:message-type", "wrong message type", rep)
 			}
